@@ -368,6 +368,40 @@ impl C09 {
     }
 }
 
+impl C09 {
+    /// forked: the epoch manager's owner re-schedules the genesis into the future, so that there
+    /// is no current epoch. Which farms are "currently active" cannot be decided then; an
+    /// emergency exit that is executed all the same is judged against the farms that were active
+    /// when epochs were last defined (a refusal leaves nothing to judge)
+    fn undefined_epoch_probe(&mut self, w: &mut World, s: &Step, rep: &mut Reporter) {
+        use cosmwasm_std::Uint64;
+        use mantra_dex_std::epoch_manager as em;
+        let now = w.now();
+        let cands: Vec<&Position> = s.fpost.positions.values().filter(|p| p.expiring_at.map(|e| e > now + 86_400).unwrap_or(true) && p.lp_asset.amount.u128() >= 1_000 && p.lp_asset.amount.u128() < 10u128.pow(20)).collect();
+        let pos = match cands.choose(&mut self.rng) {
+            Some(p) => (*p).clone(),
+            None => return,
+        };
+        let snap = w.snapshot();
+        let before = fobserve(w);
+        let owner = w.owner.clone();
+        let c = w.em.clone();
+        let r = w.exec(&owner, &c, &em::ExecuteMsg::UpdateConfig { epoch_config: Some(em::EpochConfig { duration: Uint64::new(w.cfg.epoch_duration), genesis_epoch: Uint64::new(now + 10 * 86_400) }) }, &[]);
+        if !r.is_ok() || fobserve(w).epoch.is_some() {
+            rep.count("penalty", "undefined_epoch_probe: could not remove the current epoch");
+            w.restore(&snap);
+            return;
+        }
+        let out = w.apply(&pos_op(&pos.receiver, PositionAction::Withdraw { identifier: pos.identifier.clone(), emergency_unlock: Some(true) }, vec![]));
+        if out.is_ok() {
+            self.judge(w, &before, &pos, now, &out, "forked exit while the epoch manager reports no current epoch", rep);
+        } else {
+            rep.held("penalty", hash_of(&"no_current_epoch_refused"), || json!({"observed_via": "forked exit while the epoch manager reports no current epoch", "result": out.short()}));
+        }
+        w.restore(&snap);
+    }
+}
+
 impl Monitor for C09 {
     fn step(&mut self, w: &mut World, s: &Step, rep: &mut Reporter) {
         if let (Op::Fm { msg: fm::ExecuteMsg::ManagePosition { action: PositionAction::Withdraw { identifier, emergency_unlock: Some(true) } }, .. }, true) = (s.op, s.out.is_ok()) {
@@ -380,6 +414,9 @@ impl Monitor for C09 {
         }
         if s.idx % 60 == 41 {
             self.many_farms_probe(w, s, rep);
+        }
+        if s.idx % 60 == 13 {
+            self.undefined_epoch_probe(w, s, rep);
         }
         let _ = (BigInt::zero().is_negative(), 0u8.is_even());
     }
